@@ -120,6 +120,7 @@ func runC09(s *spec.Spec, logPath string) {
 				switch {
 				case st.U != nil:
 					simrt.BeginCall()
+					simrt.CallBudget(callBudgetOf(s.Universe[*st.U].String()), s.Universe[*st.U].String())
 					setCall(s.Universe[*st.U].String())
 					d := ops.Run(s.Universe[*st.U])
 					setCall("")
@@ -164,6 +165,7 @@ func runC09(s *spec.Spec, logPath string) {
 								d = "PANIC:" + fmt.Sprint(r)
 							}
 						}()
+						simrt.CallBudget(callBudgetOf(op.String()), op.String())
 						setCall(op.String())
 						d = ops.DigestSubset(v, op.Acc, op.N)
 						setCall("")
